@@ -2,9 +2,57 @@
 
 package face
 
-import "io"
+import (
+	"errors"
+	"io"
+	"net"
+
+	defn "github.com/named-data/ndnd/fw/defn"
+)
 
 // VerifReadTlvStream exposes readTlvStream to the verification harness (build tag verif only).
 func VerifReadTlvStream(reader io.Reader, onFrame func([]byte), ignoreError func(error) bool) error {
 	return readTlvStream(reader, onFrame, ignoreError)
+}
+
+// verifFrameSink is a link service that only reports the frames its transport hands up.
+type verifFrameSink struct {
+	linkServiceBase
+	onFrame func([]byte)
+}
+
+func (s *verifFrameSink) String() string                   { return "VerifFrameSink" }
+func (s *verifFrameSink) Run(initial []byte)               {}
+func (s *verifFrameSink) handleIncomingFrame(frame []byte) { s.onFrame(frame) }
+
+// VerifStreamReceiver builds the REAL stream transport of the given kind ("tcp": UnicastTCPTransport
+// accepted on conn, "unix": UnixStreamTransport on conn) with a frame sink as its link service,
+// applies SetMTU(mtu) the way management faces/create|update does, and returns the transport's own
+// receive loop (runReceive) for the harness to run; onFrame sees what reaches the link service.
+func VerifStreamReceiver(kind string, conn net.Conn, mtu int, onFrame func([]byte)) (func(), error) {
+	var t transport
+	switch kind {
+	case "tcp":
+		tt, err := AcceptUnicastTCPTransport(conn, defn.MakeTCPFaceURI(4, "127.0.0.1", 6363), PersistencyOnDemand)
+		if err != nil {
+			return nil, err
+		}
+		t = tt
+	case "unix":
+		local := defn.MakeUnixFaceURI("/run/verif.sock")
+		remote := defn.MakeFDFaceURI(3)
+		tt, err := MakeUnixStreamTransport(remote, local, conn)
+		if err != nil {
+			return nil, err
+		}
+		t = tt
+	default:
+		return nil, errors.New("unknown stream transport kind")
+	}
+	s := &verifFrameSink{onFrame: onFrame}
+	s.makeLinkServiceBase()
+	s.transport = t
+	t.setLinkService(s)
+	s.SetMTU(mtu)
+	return t.runReceive, nil
 }
